@@ -94,14 +94,19 @@ def encPairs : List (Bytes × Bytes) → Bytes
   | [] => []
   | p :: l => putStr p.1 ++ (putStr p.2 ++ encPairs l)
 
+/-- A field that is on the wire only when its flag bit is set. -/
+def optBytes (c : Bool) (b : Bytes) : Bytes := if c then b else []
+
 /-- `marshalFileStat` / `Attributes.MarshalInto` preceded by the flags word. -/
 def encAttrs (a : Attrs) : Bytes :=
   be32 a.flags ++
-  ((if a.flags.testBit 0 then be64 a.size else []) ++
-  ((if a.flags.testBit 1 then be32 a.uid ++ be32 a.gid else []) ++
-  ((if a.flags.testBit 2 then be32 a.perm else []) ++
-  ((if a.flags.testBit 3 then be32 a.atime ++ be32 a.mtime else []) ++
-  (if a.flags.testBit 31 then be32 a.ext.length ++ encPairs a.ext else [])))))
+  (optBytes (a.flags.testBit 0) (be64 a.size) ++
+  (optBytes (a.flags.testBit 1) (be32 a.uid) ++
+  (optBytes (a.flags.testBit 1) (be32 a.gid) ++
+  (optBytes (a.flags.testBit 2) (be32 a.perm) ++
+  (optBytes (a.flags.testBit 3) (be32 a.atime) ++
+  (optBytes (a.flags.testBit 3) (be32 a.mtime) ++
+  optBytes (a.flags.testBit 31) (be32 a.ext.length ++ encPairs a.ext)))))))
 
 def encNames : List NameEntry → Bytes
   | [] => []
@@ -316,7 +321,12 @@ def fieldMeter (cfg : DecCfg) (k : FKind) (bs : Bytes) : Nat :=
   | .attrs => (if cfg.fx then 0 else fileStatSize) + attrsMeter cfg bs
   | .pairs => pairsAllMeter bs.length bs
   | .names => namesMeter cfg bs
-  | _ => 0          -- integers; `rest` and `lenData` alias the input (`p.Data = b[:n]`)
+  | .u8 => 0
+  | .u32 => 0
+  | .u64 => 0
+  | .rest => 0      -- `p.Attrs = b`: aliases the input
+  | .lenData => if cfg.fx then strCost bs else 0
+      -- packet.go `p.Data = b[:n]` aliases the input; filexfer `ConsumeByteSliceCopy` copies
 
 def decodeMeter (cfg : DecCfg) : List FieldD → Bytes → Nat
   | [], _ => 0
@@ -340,6 +350,16 @@ inductive FrameResult where
   | ok (typ : Nat) (payload : Bytes) (rest : Bytes)
   deriving DecidableEq, Repr
 
+/-- `recvPacket` after the four length bytes: `n` the declared length, `r` the bytes that follow. -/
+def recvBody (maxLen n : Nat) (r : Bytes) : FrameResult × Bytes :=
+  if n > maxLen then (.errLong, r)
+  else if n = 0 then (.errZero, r)
+  else if r.length < n then (.errShortBody r.length, [])
+  else
+    match r.take n with
+    | t :: p => (.ok t.toNat p (r.drop n), r.drop n)
+    | [] => (.errZero, r)      -- unreachable: 0 < n ≤ r.length
+
 /-- `recvPacket` on a reader that delivers exactly the bytes `s` and then EOF.
 Second component: the bytes of the stream NOT yet read when `recvPacket` returns. -/
 def recvFrameL (maxLen : Nat) (s : Bytes) : FrameResult × Bytes :=
@@ -348,16 +368,31 @@ def recvFrameL (maxLen : Nat) (s : Bytes) : FrameResult × Bytes :=
   | _ :: _ =>
     match get32? s with
     | none => (.errShortHeader, [])
-    | some (n, r) =>
-      if n > maxLen then (.errLong, r)
-      else if n = 0 then (.errZero, r)
-      else if r.length < n then (.errShortBody r.length, [])
-      else
-        match r.take n with
-        | t :: p => (.ok t.toNat p (r.drop n), r.drop n)
-        | [] => (.errZero, r)      -- unreachable: 0 < n ≤ r.length
+    | some nr => recvBody maxLen nr.1 nr.2
 
 def recvFrame (maxLen : Nat) (s : Bytes) : FrameResult := (recvFrameL maxLen s).1
+
+/-- filexfer `readPacket` after the four length bytes: a length below 5 cannot hold the type byte
+and the request id (`ErrShortPacket`, reported as `errZero`), then the limit, then `io.ReadFull`.
+The type byte is split off as in `RawPacket.UnmarshalFrom`. -/
+def recvBodyFx (maxLen n : Nat) (r : Bytes) : FrameResult × Bytes :=
+  if n < 5 then (.errZero, r)
+  else if n > maxLen then (.errLong, r)
+  else if r.length < n then (.errShortBody r.length, [])
+  else
+    match r.take n with
+    | t :: p => (.ok t.toNat p (r.drop n), r.drop n)
+    | [] => (.errZero, r)      -- unreachable
+
+def recvFrameFxL (maxLen : Nat) (s : Bytes) : FrameResult × Bytes :=
+  match s with
+  | [] => (.eof, [])
+  | _ :: _ =>
+    match get32? s with
+    | none => (.errShortHeader, [])
+    | some nr => recvBodyFx maxLen nr.1 nr.2
+
+def recvFrameFx (maxLen : Nat) (s : Bytes) : FrameResult := (recvFrameFxL maxLen s).1
 
 /-- Bytes allocated by `recvPacket` without an allocator: `make([]byte, 4)` and `make([]byte, length)`. -/
 def recvAlloc (maxLen : Nat) (s : Bytes) : Nat :=
